@@ -22,6 +22,7 @@ func init() {
 				return
 			}
 			c.ruleEqualExtSymmetry("R-EQUAL-EXT-SYMMETRY")
+			c.ruleInitFlagScope("R-INIT-FLAG-SCOPE")
 			c.ruleReflErrSkip("R-REFL-ERR-SKIP", 3)
 			c.ruleMergeDesc("R-MERGE-DESC")
 			c.ruleConsumeTagRange("R-CONSUMETAG-RANGE", []string{"internal/impl", "proto"}, 4)
